@@ -943,7 +943,12 @@ class Constraints:
         # delta: 3
 
         if decimals >= delta:
-            return round(value, decimals - delta)
+            rounded = round(value, decimals - delta)
+            # rounding up can carry into a new digit (9.96 -> 10.0), so check the rounded value again
+            r_digits, r_decimals = cls._parse_decimal(rounded)
+            if r_digits > max_digits and r_decimals < decimals:
+                return cls.lax_max_digits(rounded, max_digits)
+            return rounded
         raise ValueError
 
     @classmethod
